@@ -171,7 +171,7 @@ def parse_rules(ctx, I):
             seqs = [[]]
             for part in (ft.parts if isinstance(ft, Cat) else [('fmt', ft, '', 'raw')]):
                 if isinstance(part, str):
-                    seqs = [q + [repr(part)] for q in seqs]
+                    seqs = [q + [part] for q in seqs]
                     continue
                 nxt = []
                 for x in live_alts(s2, part[1]):
